@@ -216,6 +216,40 @@ def check(repo: Repo, run: Run) -> None:
                ev.loc(meths[mname]))
     run.floor("C02.T5", n5, 15)
 
+    # T6/T7 (compiled macro helpers) ---------------------------------------
+    from ..core.effvals import CV, FS, Val, of_kind
+    from ..core.efflib import catches
+
+    caught, _keys, _rf = effrules.result_handler(repo)
+    eng = effrules.interp_analysis(repo)["engine"]
+    probe = "ZeroDivisionError"
+    body = Val(calls=FS({CV("userfn", name=f"body:{probe}")}))
+    gen = Val(calls=FS({CV("userfn", name="body:", cls="list")}))
+    n6 = n7 = 0
+    for f in sorted(q for q, _n in ev.functions() if q.startswith("macro_")):
+        fn = ev.func(f)
+        if len(fn.args.args) != 4:
+            run.inconclusive("C02.T7", f, "not a (activation, variable, body, source) helper")
+            continue
+        effs, _ret, key = eng.run_fn("evaluation", f, [of_kind("Activation"), Val(strs=FS({"x"})), body, gen])
+        classes = {e for e, _t in effs}
+        if f in ("macro_all", "macro_exists"):
+            n6 += 1
+            why = next((effrules.short_why(eng.explain(key, et)) for et in effs if et[0] == probe), "")
+            run.ob("C02.T6", f"{f}|element errors are values", probe not in classes,
+                   f"{f}: an exception raised by the body for one element "
+                   + ("is converted to an error value before the fold" if probe not in classes
+                      else f"leaves the helper ({why}); a later deciding element cannot absorb it"), ev.loc(fn))
+        for e in sorted(classes):
+            n7 += 1
+            ok = any(catches(h, e) for h in caught)
+            why = next((effrules.short_why(eng.explain(key, et)) for et in effs if et[0] == e), "")
+            run.ob("C02.T7", f"{f}|{e}", ok,
+                   f"{f} can raise {e} ({why}); " + ("result() around the macro call converts it, so && / || / ?: see a value"
+                                                    if ok else "result() does not catch it: it escapes the operand wrappers of && / || / ?:"), ev.loc(fn))
+    run.floor("C02.T6", n6, 2)
+    run.floor("C02.T7", n7, 8)
+
 
 def operands_from_children(fn: ast.FunctionDef, opkey: str) -> Tuple[bool, str]:
     """In the 2-children branch: ``l, r = visit_children(tree)`` and the resolved function is called with (l, r)."""
